@@ -68,14 +68,10 @@ pub fn expand_partial<'reg: 'rc, 'rc>(
 
     let is_partial_block = tname == PARTIAL_BLOCK;
 
-    // add partial block depth there are consecutive partial
-    // blocks in the stack.
+    // inside the body of a partial block `@partial-block` is the one of
+    // the template the body was written in
     if is_partial_block {
-        rc.inc_partial_block_depth();
-    } else {
-        // depth cannot be lower than 0, which is guaranted in the
-        // `dec_partial_block_depth` method
-        rc.dec_partial_block_depth();
+        rc.enter_partial_block();
     }
 
     // hash
